@@ -19,7 +19,7 @@ Steps:
 1. Read the relevant code in {wt}. Build: `cmake -G Ninja -S {wt} -B {wt}/_build -DEVENT__DISABLE_BENCHMARK=ON -DEVENT__DISABLE_SAMPLES=ON > /dev/null && cmake --build {wt}/_build -j8 > /dev/null` (offline; all dependencies are installed).
 2. Make the change. Rebuild. Run the existing suite exactly like this and make sure everything except the tests named regress* passes (regress* tests fail in this sandbox even without any change and are excluded): `ctest --test-dir {wt}/_build -j8 --timeout 900 -E regress 2>&1 | tail -15`.
 3. Write a demonstration: a small C program (or shell script driving one) under {wt}/demo/ that uses the library's API (or includes an internal header / .c file if needed), exits 0 on the unmodified tree and non-zero (with a message saying what went wrong) on the modified tree. Include demo/run.sh that builds and runs it against {wt}/_build (e.g. gcc -I{wt}/include -I{wt}/_build/include demo.c {wt}/_build/lib/libevent.a ... -lpthread; check which libs exist under _build/lib). Verify both directions yourself: run it with your change (must fail); then save the patch (step 4), remove the change with `git -C {wt} apply -R {wt}/patch.diff`, rebuild, run the demo (must pass); then re-apply with `git -C {wt} apply {wt}/patch.diff` and rebuild. Never use git stash, commit, or branch commands.
-4. Save the source change as {wt}/patch.diff (`git -C {wt} diff -- . ':!demo' ':!patch.diff' > {wt}/patch.diff`; it must contain only library source changes).
+4. Save the source change as {wt}/patch.diff (`git -C {wt} diff -- . ':!demo' ':!patch.diff' ':!INSTRUCTIONS.md' > {wt}/patch.diff`; it must contain only library source changes).
 5. Final report (short): what you changed and why it breaks the property; what it needs to manifest; the exact commands you ran for the test suite and their summary line; how the demo behaves with/without the change.
 
 Work autonomously; do not ask questions. If your first idea is caught by the existing tests, pick another.""")
